@@ -23,8 +23,13 @@ const TIMEOUT: Duration = Duration::from_secs(60);
 ///
 /// We're using a custom switch very similar to what [mockall_double::double]
 /// is doing.
+#[cfg(not(feature = "zvt_verif"))]
 #[cfg(not(test))]
 type InnerTcpStream = tokio::net::TcpStream;
+
+/// In-memory I/O for the verification harness.
+#[cfg(all(feature = "zvt_verif", not(test)))]
+type InnerTcpStream = crate::verif_hook::VerifTcpStream;
 
 /// Mocked I/O for unit tests.
 #[cfg(test)]
